@@ -138,6 +138,14 @@ class LibInfo:
 _LIB: LibInfo | None = None
 
 
+def store_gated() -> bool:
+	"""Which `_can_store` the tree under test has: the pinned one (no `enabled` check, F4) or the repaired one
+	(proposed/C05-store-when-disabled.diff). The model has both (`World.storeGated`); everything else is hand-modelled."""
+	import inspect
+	from rogw.tranp.semantics.reflection.persistent import SymbolDBPersistor
+	return 'enabled' in inspect.getsource(SymbolDBPersistor._can_store)
+
+
 def lib_info(ctx: Ctx) -> LibInfo:
 	global _LIB
 	if _LIB is None:
@@ -257,7 +265,7 @@ class RealCase:
 
 	def prelude(self) -> tuple[list[str], list[str]]:
 		"""Model declaration lines for the initial state (+ the expected `ok`s)."""
-		lines = [f'init\t0\t{1 if self.enabled else 0}', *self.lib.prelude()]
+		lines = [f'init\t0\t{1 if self.enabled else 0}\t{1 if store_gated() else 0}', *self.lib.prelude()]
 		t = self.lib.first_project_mtime
 		mt: dict[str, int] = {}
 		for m in self.graph:		# written in this order by __init__: mtimes first_project_mtime+1, +2, …
@@ -395,7 +403,7 @@ def stream_cachefs(ctx: Ctx) -> Stream:
 		for rec in load_corpus():
 			if rec.get('stream') == 'cachefs':
 				cases.append(case_cachefs(ctx, rng, lib, 0, bool(rec.get('seeded', True)), corpus_ops=rec['ops'], shape=rec['shape'], variants=rec['variants']))
-		n = ctx.scale(14, 160)
+		n = ctx.scale(12, 100)
 		for i in range(n):
 			seeded = (i % 5) != 0
 			cases.append(case_cachefs(ctx, rng, lib, ctx.scale(9, 16) if seeded else ctx.scale(5, 8), seeded))
@@ -483,18 +491,18 @@ def diagnose_warm_cold(ctx: Ctx, lib: LibInfo, case: 'RealCase', pre: tproj.Proj
 	return 'parser-stale', 'the cached parser differs from a fresh one'
 
 
-def search_warm_cold(ctx: Ctx) -> SearchResult:
+def search_warm_cold(ctx: Ctx, only: list[tuple[str, dict[str, int], list[list[str]]]] | None = None) -> SearchResult:
 	rng = ctx.sub_rng('warm-cold')
 	lib = lib_info(ctx)
 	res = SearchResult('output_warm == output_cold at every run of a history (cold = same project state, empty cache directory)')
-	histories: list[tuple[str, dict[str, int], list[list[str]]]] = []
+	histories: list[tuple[str, dict[str, int], list[list[str]]]] = list(only or [])
 	for rec in load_corpus():
-		if rec.get('search') == 'warm-cold':
+		if rec.get('search') == 'warm-cold' and only is None:
 			histories.append((rec['shape'], rec['variants'], rec['ops']))
-	n_random = ctx.scale(8, 150)
+	n_random = ctx.scale(8, 120) if only is None else 0
 	hist: dict[str, int] = {}
 	seen: set[str] = set()
-	budget_runs = ctx.scale(70, 2400)
+	budget_runs = ctx.scale(64, 900)
 	runs = 0
 	for hi in range(len(histories) + n_random):
 		if runs >= budget_runs:
@@ -563,7 +571,8 @@ def layer_of(rel: str) -> str:
 	return 'parser' if rel.endswith('.bin') else ('symbols' if '-symbols-' in rel else 'tree')
 
 
-def search_truncation(ctx: Ctx) -> SearchResult:
+def search_truncation(ctx: Ctx, only: dict[str, Any] | None = None) -> SearchResult:
+	"""`only` = the `input` of a recorded finding: re-checks exactly that truncation."""
 	rng = ctx.sub_rng('truncation')
 	lib = lib_info(ctx)
 	res = SearchResult('a run over a truncated cache file fails or produces the cold output; every proper prefix of a cache file is rejected by the real loader')
@@ -573,10 +582,14 @@ def search_truncation(ctx: Ctx) -> SearchResult:
 	# (1) loader level, every offset of small files: EntryStored.load / json.loads (SymbolDBPersistor._restore) / LarkStored.load
 	from rogw.tranp.implements.syntax.lark.parser import EntryStored, LarkStored
 	shapes = ['chain3', 'diamond'] if not ctx.thorough else list(graph_shapes())
+	if only is not None:
+		shapes = [only['shape']] if only.get('search') == 'truncation-loader' else []
 	for shape in shapes:
-		case = RealCase(ctx, lib, shape, gen_variants(rng, graph_shapes()[shape]), seeded=True)
+		case = RealCase(ctx, lib, shape, only['variants'] if only else gen_variants(rng, graph_shapes()[shape]), seeded=True)
 		case.apply(['run', '1'])
 		for rel in case.proj.cache_files():
+			if only is not None and layer_of(rel) != layer_of(only['file']):
+				continue
 			with open(os.path.join(case.proj.cache_dir, rel), 'rb') as f:
 				data = f.read()
 			layer = layer_of(rel)
@@ -610,16 +623,21 @@ def search_truncation(ctx: Ctx) -> SearchResult:
 		shutil.rmtree(case.proj.root, ignore_errors=True)
 
 	# (2) whole runs over a damaged cache
-	n_states = ctx.scale(2, 8)
-	per_state = ctx.scale(14, 120)
+	n_states = ctx.scale(2, 6)
+	per_state = ctx.scale(14, 80)
+	if only is not None:
+		n_states = 1 if only.get('search') == 'truncation-run' else 0
 	for si in range(n_states):
-		shape = rng.choice(['chain2', 'chain3'] if not ctx.thorough else list(graph_shapes()))
-		case = RealCase(ctx, lib, shape, gen_variants(rng, graph_shapes()[shape]), seeded=True)
-		case.apply(['run', '1'])
-		if rng.random() < 0.5:
-			m = rng.choice(list(case.graph))
-			case.apply(['edit', m, str(rng.randrange(N_VARIANTS))])
-			case.apply(['run', '0'])
+		shape = only['shape'] if only else rng.choice(['chain2', 'chain3'] if not ctx.thorough else list(graph_shapes()))
+		case = RealCase(ctx, lib, shape, only['start_variants'] if only else gen_variants(rng, graph_shapes()[shape]), seeded=True)
+		start_variants = dict(case.variants)
+		prep: list[list[str]] = [['run', '1']]
+		if only is not None:
+			prep = only['prep']
+		elif rng.random() < 0.5:
+			prep += [['edit', rng.choice(list(case.graph)), str(rng.randrange(N_VARIANTS))], ['run', '0']]
+		for op in prep:
+			case.apply(op)
 		cold = cold_outcome(ctx, lib, case.proj, True, True, seeded=True)
 		und = case.proj.clone(ctx.tmpdir('tranp-c05-und-'))
 		undamaged = outcome(und, und.run(force=True, cache_enabled=True))		# differs from `cold` only through stale entries (warm-cold search)
@@ -630,10 +648,13 @@ def search_truncation(ctx: Ctx) -> SearchResult:
 		if ctx.thorough and si == 0:
 			for rel in files:
 				if rel.startswith(f'{PKG}/') and sizes[rel] <= 4096:
-					targets.extend((rel, k) for k in range(0, sizes[rel], 3))
-		for _ in range(per_state):
+					targets.extend((rel, k) for k in range(0, sizes[rel], 7))
+		for _ in range(per_state if only is None else 0):
 			rel = rng.choice(files if rng.random() < 0.4 else [f for f in files if f.startswith(f'{PKG}/')])
 			targets.append((rel, rng.choice([0, 1, sizes[rel] - 1, sizes[rel] - 2, rng.randrange(sizes[rel])])))
+		if only is not None:
+			# digests are reproducible (virtual mtimes, same contents): the recorded file name names the same file
+			targets = [(only['file'], int(only['k']))] if only['file'] in sizes else []
 		for rel, k in targets:
 			k = max(0, min(k, sizes[rel] - 1))
 			p = case.proj.clone(ctx.tmpdir('tranp-c05-trunc-'))
@@ -651,7 +672,7 @@ def search_truncation(ctx: Ctx) -> SearchResult:
 			seen.add(f'{shape}:{rel}:{k}')
 			if got[0] == 'ok' and got != cold and got != undamaged:
 				res.findings.append(Finding(key=f'truncated-file-accepted:{layer}', what=f'run over {rel} cut at byte {k}/{sizes[rel]} succeeds with output different from the cold run and from the run over the undamaged cache',
-					replay={'search': 'truncation-run', 'shape': shape, 'variants': case.variants, 'file': rel, 'k': k}))
+					replay={'search': 'truncation-run', 'shape': shape, 'start_variants': start_variants, 'prep': prep, 'file': rel, 'k': k}))
 				break
 		if len(res.samples) < 2:
 			res.samples.append({'shape': shape, 'files': len(files), 'truncations': len(targets)})
@@ -661,17 +682,17 @@ def search_truncation(ctx: Ctx) -> SearchResult:
 	return res
 
 
-def search_disabled(ctx: Ctx) -> SearchResult:
+def search_disabled(ctx: Ctx, only: list[tuple[str, dict[str, int], list[list[str]]]] | None = None) -> SearchResult:
 	rng = ctx.sub_rng('disabled')
 	lib = lib_info(ctx)
 	res = SearchResult('with CacheSetting.enabled = False no file below the cache directory is opened, created or unlinked, and the output equals the cold output')
 	hist: dict[str, int] = {}
 	seen: set[str] = set()
-	plans: list[tuple[str, dict[str, int], list[list[str]]]] = []
+	plans: list[tuple[str, dict[str, int], list[list[str]]]] = list(only or [])
 	for rec in load_corpus():
-		if rec.get('search') == 'disabled':
+		if rec.get('search') == 'disabled' and only is None:
 			plans.append((rec['shape'], rec['variants'], rec['ops']))
-	for _ in range(ctx.scale(4, 40)):
+	for _ in range(ctx.scale(4, 40) if only is None else 0):
 		shape = rng.choice(list(graph_shapes()))
 		ops: list[list[str]] = []
 		if rng.random() < 0.7:
@@ -768,7 +789,7 @@ def run(ctx: Ctx) -> int:
 			searches = [search_warm_cold(ctx), search_truncation(ctx), search_disabled(ctx)]
 	return common.finish(ctx, proof, streams, searches, statements=STATEMENTS,
 		partial={
-			'sentence 1 (warm output = cold output)': 'proved on the model for the tree layer (tree_key) and — under DirectOnly or with the closure-keyed identity — for the symbol layer (symbols_partial*); FALSE in general (symbols_counterexample = F5); equality of the transpiled text follows from equal trees and tables because `render` is a function of them; the parser cache (pickle) is correspondence/search only',
+			'sentence 1 (warm output = cold output)': 'proved on the model for the tree layer (tree_key) and — under DirectOnly or with the closure-keyed identity — for the symbol layer (symbols_partial*); FALSE in general (symbols_counterexample = F5). Proved per module: tree and symbol table of the warm run = those of the cold run; that the rendered text (a function of the tree and of the session's tables in load order) is equal is checked by the search only; the parser cache (pickle) is correspondence/search only',
 			'sentence 1 (no cache file read or written when disabled)': 'FALSE on the code (disabled_counterexample = F4); proved for the gated store (disabled_partial)',
 			'sentence 2 (damaged file: rebuild or fail)': 'truncate (JSON printer model) + Hyp.prefix_invalid inside tree_key/symbols_partial (histories contain trunc ops); pickle truncation is search only',
 			'search_only': 'failure status equality warm/cold; output text of the real renderer',
@@ -784,8 +805,22 @@ def run(ctx: Ctx) -> int:
 
 
 def replay(ctx: Ctx, path: str) -> int:
+	"""Re-runs the recorded failing input on the real code (finding files), or the whole check (broken proof / stream)."""
 	with open(path, encoding='utf-8') as f:
 		rec = json.load(f)
-	print(json.dumps(rec, indent=1)[:4000])
-	ctx2 = Ctx(PROP, rec.get('tier', 'quick'), int(rec.get('seed', 0)))
-	return run(ctx2)
+	inp = rec.get('input') or {}
+	kind = inp.get('search')
+	if rec.get('kind') != 'failing-input' or kind not in ('warm-cold', 'disabled', 'truncation-run', 'truncation-loader'):
+		return run(Ctx(PROP, rec.get('tier', 'quick'), int(rec.get('seed', 0))))
+	print(f"replay: {kind} {json.dumps(inp)[:600]}")
+	if kind == 'warm-cold':
+		res = search_warm_cold(ctx, only=[(inp['shape'], inp['variants'], inp['ops'])])
+	elif kind == 'disabled':
+		res = search_disabled(ctx, only=[(inp['shape'], inp['variants'], inp['ops'])])
+	else:
+		res = search_truncation(ctx, only=inp)
+	for fnd in res.findings:
+		print(f'reproduced: [{fnd.key}] {fnd.what}')
+	if not res.findings:
+		print('not reproduced on the current tree')
+	return common.finish(ctx, None, [], [res], statements=STATEMENTS)
